@@ -309,14 +309,25 @@ def hotspotToCore (sc : StrConv) : Rec → Rec
     [id, res, mt, cb, pidx, .s "", thr, mq, burst, dur, cap, .smap (parseSpecific sc its)]
   | r => r
 
-/-- `HotSpotParamRuleJsonArrayParser`: unmarshal to `[]*HotspotRule`, then dereference every element -/
+/-- `HotSpotParamRuleJsonArrayParser` (since fix 2a360c1): unmarshal to `[]*HotspotRule`, skip nil elements (a JSON
+    `null` describes no rule), convert the others -/
 def convHotspot (sc : StrConv) (empty : Bool) (tree : Option Json) : Conv (WireList Rec) :=
   if empty then .ok none else
   match tree with
   | none => .err
   | some j => match decodeList hotspotTags j with
     | none => .err
-    | some none => .ok (some (some []))          -- `make([]*hotspot.Rule, 0)`: a non-nil empty list
+    | some l => .ok (some (some (l.elems.map fun r => some (hotspotToCore sc r))))   -- `make([]*hotspot.Rule, 0, n)`: never a nil slice
+
+/-- the parser **before** 2a360c1, kept for the witness of the repaired finding `null-element-swallowed`: every element
+    was dereferenced, a nil `*HotspotRule` panicked inside the converter -/
+def convHotspotOld (sc : StrConv) (empty : Bool) (tree : Option Json) : Conv (WireList Rec) :=
+  if empty then .ok none else
+  match tree with
+  | none => .err
+  | some j => match decodeList hotspotTags j with
+    | none => .err
+    | some none => .ok (some (some []))
     | some (some xs) =>
       if xs.any Option.isNone then .panic         -- `hotspotRule.ID` on a nil `*HotspotRule`
       else .ok (some (some (xs.map fun o => o.map (hotspotToCore sc))))
